@@ -30,7 +30,7 @@ def main():
         sd = os.path.join(batch, sid)
         meta = json.load(open(os.path.join(sd, 'meta.json')))
         res = {'repo_head': head, 'at': time.strftime('%Y-%m-%dT%H:%M:%SZ', time.gmtime())}
-        sh(['git', '-C', wt, 'checkout', '--', '.'])
+        sh(['git', '-C', wt, 'reset', '-q', '--hard', 'HEAD'])
         demo = os.path.join(sd, 'demo')
         denv = dict(ENV, CARGO_TARGET_DIR=tgt)
         runner = ['cargo', 'run', '--offline', '-q'] if os.path.exists(os.path.join(demo, 'src', 'main.rs')) else ['cargo', 'test', '--offline', '-q']
@@ -65,7 +65,7 @@ def main():
             meta['confirmation'] = res
             meta['breaks_property'] = meta.get('property')
             json.dump(meta, open(os.path.join(dst, 'meta.json'), 'w'), indent=1)
-        sh(['git', '-C', wt, 'checkout', '--', '.'])
+        sh(['git', '-C', wt, 'reset', '-q', '--hard', 'HEAD'])
     sh(['git', '-C', '/repo', 'worktree', 'remove', '--force', wt])
     shutil.rmtree(tgt, ignore_errors=True)
     shutil.rmtree(os.path.join(batch, 'target_suite'), ignore_errors=True)
